@@ -373,10 +373,9 @@ class SU2M(dict):
 
     def get_euler_angle(self):
         x = self["x"]
-        cosbeta = tf.math.real(x[0][0] * x[1][1] + x[0][1] * x[1][0])
-        cosbeta = tf.clip_by_value(cosbeta, -1, 1)
-        zeros = tf.zeros_like(cosbeta)
-        beta = tf.math.acos(cosbeta)
+        # sin(beta/2) = |x10|, cos(beta/2) = |x11|: well conditioned also at beta = 0 and pi
+        beta = 2 * tf.math.atan2(tf.abs(x[1][0]), tf.abs(x[1][1]))
+        zeros = tf.zeros_like(beta)
         m_1 = tf.abs(x[0][0])
         m_2 = tf.abs(x[1][0])
         # alpha_p_gamma = tf.math.imag(
